@@ -698,6 +698,28 @@ def _dispatch(name, op, slots, args, kwargs):
         except TypeError:
             pass
         return None
+    if name == "mutate_returned":
+        # a caller scribbles on whatever an accessor handed out; containers that can be changed in
+        # place must not be shared with the URL (or with other callers)
+        what = args[0]
+        v = getattr(u, what)
+        done = "immutable"
+        try:
+            if isinstance(v, list):
+                v.append("zz")
+                done = "list changed"
+            elif isinstance(v, dict):
+                v["zz"] = "zz"
+                done = "dict changed"
+            elif isinstance(v, (set, bytearray)):
+                v.clear()
+                done = "cleared"
+            elif isinstance(v, multidict.MultiDict):
+                v.add("zz", "zz")
+                done = "multidict changed"
+        except Exception:  # noqa
+            done = "refused"
+        return done
     if name == "setattr":
         # documented-immutable objects: assignment must not silently change observable state
         try:
@@ -1074,8 +1096,10 @@ def gen_read(rng, live, slots=None):
         return {"op": "cmp", "on": on, "other": other, "args": [rng.choice(CMP_OPS)]}
     if r < 0.9:
         return {"op": "query_mutate", "on": on, "args": []}
-    if r < 0.92:
+    if r < 0.91:
         return {"op": "setattr", "on": on, "args": [rng.choice(["host", "_val", "scheme", "x", "path"]), "zz"]}
+    if r < 0.925:
+        return {"op": "mutate_returned", "on": on, "args": [rng.choice(["parts", "raw_parts", "suffixes", "raw_suffixes", "query"])]}
     order = list(ALL_READS)
     rng.shuffle(order)
     return {"op": "deep", "on": on, "args": [order]}
